@@ -44,17 +44,24 @@ SECP_N = 0xFFFFFFFFFFFFFFFFFFFFFFFFFFFFFFFEBAAEDCE6AF48A03BBFD25E8CD0364141
 ASSUMPTIONS = [
     "the node is replaced by a scripted scantxoutset result whose total_amount is the exact sum of the reported amounts "
     "(bitcoind computes both in integer satoshis and prints 8 decimals); amounts are binary64 values of 8-decimal strings",
-    "validity is TEMPLATE-LEVEL (Spec.unlocks / c16ref.unlocks for P2PK, P2PKH, bare multisig, P2SH-multisig, P2WPKH, P2WSH-multisig "
-    "and the two P2SH-wrapped witness programs), not a full script interpreter",
+    "validity is TEMPLATE-LEVEL in the correspondence (c16ref.unlocks for P2PK, P2PKH, bare multisig, P2SH-multisig, P2WPKH, "
+    "P2WSH-multisig and the two P2SH-wrapped witness programs: independent legacy / BIP143 sighash + OpenSSL ECDSA), and at the "
+    "SIGNATURE level in Coq (every signature is DER||flag and ecmath.verify-valid for the consensus sighash of its input); "
+    "neither is a full script interpreter",
     "sat_exact (round(a*1e8) = satoshis a for every 8-decimal amount a <= 21e6 BTC) is checked by the correspondence on boundary "
     "amounts and stated as a hypothesis of the conservation theorems; it is not proved in Coq (needs a Flocq error analysis)",
     "binary64 arithmetic in the model is Coq's SpecFloat (the IEEE 754 specification PrimFloat is axiomatised against); the "
     "PrimFloat twins of the value-layer functions are compared with it by vm_compute on every run (coq_equation)",
     "'requested amount' = the correctly rounded double product send_fraction * total (in satoshis) truncated to an integer",
     "sha256 / ripemd160 are arbitrary functions in the theorems (hashlib answers them at run time); secp256k1 signing uses "
-    "Model/Ecmath.sign_with with the scripted nonces",
-    "modelled, not verified: tx.send_tx and what it calls (wif_decode, keys.pub, script(), the script templates, "
-    "bip143.witness_message, utils.sig); rpc.py is not modelled (scripted source)",
+    "Model/Ecmath.sign_with with the scripted nonces; curve_facts (C01) is an explicit premise of the validity theorems",
+    "SIGHASH_SINGLE on a non-witness input without a matching output (more inputs than outputs): the consensus digest is the "
+    "constant 1, utils.sig cannot sign it; send_tx refuses with ValueError and the check accepts exactly that refusal",
+    "a recipient / change address that is neither a public key nor an address is not a supported kind: refusal is required",
+    "bits.script.scriptpubkey and bits.is_point / is_addr are not modelled here (C08 / C14 / C07 / C06): the model takes them "
+    "as functions, instantiated at run time by the harness' independent address decoder",
+    "modelled, not verified: tx.send_tx, tx.legacy_sig_message and what they call (wif_decode, keys.pub, script(), the script "
+    "templates, bip143.witness_message, utils.sig); rpc.py is not modelled (scripted source)",
 ]
 
 # ------------------------------------------------------------------------------------------------
@@ -202,8 +209,8 @@ def _outside(a, f):
                 return "single-key kind with %d keys" % len(a[3])
         else:
             k, d = R.classify(dec[0][33:])
-            if k != "multisig" or d[0] != len(a[3]) or len(d[1]) > 3:
-                return "redeem script is not an m-of-n (n <= 3) multisig signed by exactly m keys"
+            if k != "multisig" or d[0] != len(a[3]):
+                return "redeem script is not an m-of-n multisig signed by exactly m keys"
     return None
 
 
@@ -668,6 +675,10 @@ def gen_cases(rng, tier):
         A(_send_case(rng, "legacy-single-quirk", kind, [0, 1], [COIN, COIN], frac=1.0, flag=rng.choice([3, 0x83]), m=1, nkeys=2))
     A(_send_case(rng, "legacy-single-quirk", "p2pkh", [2, 0, 1], [COIN, COIN, COIN], frac=0.9, flag=3))
     A(_send_case(rng, "legacy-multi-input-flags", "p2sh", [0, 1, 2], [COIN, COIN, COIN], frac=0.9, flag=0x82, m=2, nkeys=3))
+    # ---- witness scripts of 253 bytes and more (1-of-8: 275 bytes; beyond the property's n <= 3): CompactSize scriptCode length
+    for kind in ("p2wsh", "p2sh-p2wsh"):
+        A(_send_case(rng, "wsh-large-witness-script", kind, [0], [COIN], frac=rng.choice([1.0, 0.5]), flag=rng.choice(FLAGS),
+                     m=1, nkeys=8))
     # ---- the witnesses of the repaired findings (corpus/c16/*.json): regression inputs that must satisfy the property now
     for c in corpus_cases():
         A(c)
